@@ -211,3 +211,34 @@ def analyse_tuple_len(mir_text):
             res = "error"
         out.append({"function": f.name[-70:], "shape": re.search(r"Result<(\([^)]*\))", f.ret).group(1), "ok_blocks": oks, "length_tests": lens, "res": res if oks else "error", "dt": time.time() - t0})
     return out
+
+
+# E3s (part of C07 / C10): the result of a PARTIAL conversion of a double is not unwrapped.
+# `BigDecimal::from_f64`, `BigInt::from_f64`, `BigRational::from_float`, `Ratio::from_f64` answer None for NaN and the
+# infinities -- values a script can write down.  In the numeric code of rvals.rs / primitives/numbers.rs no
+# `Option::unwrap` / `Option::expect` may be applied to such a result.  The fact is a table (site -> does the unwrapped
+# operand derive from a partial conversion of a double); z3 is asked for a site where it does.
+PARTIAL_OF_DOUBLE = re.compile(r"(from_f64|from_f32|from_float)(::<[^()]*>)?\(")
+UNWRAP = re.compile(r"Option::<.*>::(unwrap|expect)$")
+
+
+def analyse_partial_unwrap(mir_text):
+    funcs = mir.parse(mir_text, lambda n: n.startswith("rvals::") or n.startswith("primitives::numbers") or "partial_cmp" in n or "number_equality" in n)
+    sites = []
+    for key, f in funcs.items():
+        for b in f.blocks.values():
+            t = b.term
+            if b.cleanup or t.get("kind") != "call" or not UNWRAP.search(t["callee"].strip()) or not t["args"]:
+                continue
+            o = mir.origin(f, t["args"][0])
+            sites.append({"function": f.name.split("::")[-1], "bb": b.n, "partial": bool(PARTIAL_OF_DOUBLE.search(o)), "what": re.sub(r"\s+", " ", o)[:120]})
+    tbl = "(_ bv0 8)"
+    for i, s_ in enumerate(sites):
+        tbl = "(ite (= c (_ bv%d 16)) (_ bv%d 8) %s)" % (i, 1 if s_["partial"] else 0, tbl)
+    q = "(set-logic QF_BV)\n(declare-const c (_ BitVec 16))\n(assert (bvult c (_ bv%d 16)))\n(assert (= %s (_ bv1 8)))\n(check-sat)\n" % (max(1, len(sites)), tbl)
+    t0 = time.time()
+    p = subprocess.run(["z3", "-in", "-T:30"], input=q, capture_output=True, text=True)
+    res = p.stdout.strip().split("\n")[0] if p.stdout.strip() else "error"
+    if "(error" in p.stdout or res not in ("sat", "unsat"):
+        res = "error"
+    return {"res": res, "sites": len(sites), "bad": [s_ for s_ in sites if s_["partial"]], "dt": time.time() - t0}
